@@ -47,7 +47,7 @@ type PathEl struct {
 type Pointer struct {
 	Obj  *Object
 	Path []PathEl
-	// Global name for debugging
+	Code *Term // thread mode: pointer read from shared memory (symbolic object code, BV16)
 }
 
 type SliceV struct {
@@ -56,6 +56,7 @@ type SliceV struct {
 	Len *Term
 	Cap *Term
 	Elem types.Type
+	NilIf *Term // thread mode: the slice is nil iff this holds (slices read from shared memory)
 }
 
 type StringV struct {
@@ -100,7 +101,10 @@ type ChanObj struct {
 	Closed bool
 }
 
-type ChanV struct{ C *ChanObj }
+type ChanV struct {
+	C   *ChanObj
+	Sym *Term // thread mode: channel read from shared memory (symbolic id, BV8)
+}
 
 type Opaque struct {
 	Kind string
@@ -108,7 +112,7 @@ type Opaque struct {
 	Data interface{}
 }
 
-func (p *Pointer) IsNil() bool { return p == nil || p.Obj == nil }
+func (p *Pointer) IsNil() bool { return p == nil || (p.Obj == nil && p.Code == nil) }
 
 func typeStr(t types.Type) string {
 	return types.TypeString(t, nil)
